@@ -159,6 +159,10 @@ def main(args):
             farm.run_one, tasks, args.workers, per_task_timeout_s=900, wall_cap_s=wall_cap(tier))
         done = [r for r in results if r is not None]
         print(f"[{prop}] search phase done: {len(done)} runs in {time.monotonic() - t0:.1f}s", flush=True)
+        if args.digests_only:
+            for r in done:
+                print(f"DIGEST {r['index']} {r['digest']} failures={len(r['failures'])}")
+            return 0
         # bucket failures by signature, first occurrence (in run order) represents the bucket
         buckets = {}
         for r in done:
